@@ -85,8 +85,12 @@ impl ast::UnOpKind {
 }
 
 impl ast::BinOpKind {
-    pub fn const_eval(&self, a: ScalarValue, b: ScalarValue) -> ScalarValue {
-        match (a, b) {
+    /// Evaluate the operator at compile time.
+    ///
+    /// Returns `None` when the operation has no defined value (integer division or remainder by zero).
+    pub fn const_eval(&self, a: ScalarValue, b: ScalarValue) -> Option<ScalarValue> {
+        Some(match (a, b) {
+            (ScalarValue::Int(_), ScalarValue::Int(0)) if matches!(self, token![binop /] | token![binop %]) => return None,
             (ScalarValue::Int(a), ScalarValue::Int(b)) => match self {
                 token![binop +] => ScalarValue::Int(i32::wrapping_add(a, b)),
                 token![binop -] => ScalarValue::Int(i32::wrapping_sub(a, b)),
@@ -132,7 +136,7 @@ impl ast::BinOpKind {
             },
 
             _ => uncaught_type_error(),
-        }
+        })
     }
 }
 
@@ -233,7 +237,10 @@ impl ast::VisitMut for Visitor<'_, '_> {
 
             ast::Expr::BinOp(a, op, b) => {
                 if let (Some(a_value), Some(b_value)) = (a.to_const(), b.to_const()) {
-                    e.value = op.const_eval(a_value, b_value).into();
+                    match op.const_eval(a_value, b_value) {
+                        Some(out_value) => e.value = out_value.into(),
+                        None => self.errors.set(self.ctx.emitter.emit(division_by_zero_error(e.span))),
+                    }
                 };
             },
 
@@ -253,6 +260,13 @@ impl ast::VisitMut for Visitor<'_, '_> {
             _ => return, // can't simplify other expressions
         }
     }
+}
+
+pub(crate) fn division_by_zero_error(span: crate::pos::Span) -> crate::diagnostic::Diagnostic {
+    error!(
+        message("division by zero in constant expression"),
+        primary(span, "divides by zero"),
+    )
 }
 
 fn validate_call_const_args(call: &ast::ExprCall, ctx: &CompilerContext<'_>) -> Result<(), ErrorReported> {
